@@ -437,12 +437,58 @@ static void p2d_point (const pt_t *p)
 	vf_stat_add (st_points, 1);
 }
 
+/* ------------------------------------------------------------------ one session used as encoder AND decoder (C08 / C06 / C01 clauses on it) */
+static void both_point (const pt_t *p)
+{
+	int k = p->k, r = p->r, n = k + r, len = p->len, i, j, lost;
+	unsigned char **sym = calloc ((size_t) n, sizeof (void *));
+	void **tab = calloc ((size_t) n, sizeof (void *)), **src = calloc ((size_t) k, sizeof (void *));
+	of_session_t *s;
+	int rej = 0;
+	char sig[200];
+	const char *cn = p->codec == 1 ? "rs28" : p->codec == 2 ? (p->m == 4 ? "rs2m4" : "rs2m8") : "ldpc";
+#ifdef VF_TRK
+	uint64_t mark; long bad0;
+#endif
+	snprintf (g_case, sizeof g_case, "both codec=%d m=%d k=%d r=%d N1=%d seed=%d len=%d lost=%d", p->codec, p->m, k, r, p->N1, p->seed, len, p->prefix);
+	memcpy (vf_slot (), g_case, sizeof g_case);
+	lost = p->prefix;
+	for (i = 0; i < n; i++) { sym[i] = calloc (1, (size_t) len); tab[i] = sym[i]; }
+	for (i = 0; i < k; i++) fill_source (p, i, sym[i]);
+#ifdef VF_TRK
+	mark = vf_trk_mark (); bad0 = vf_trk_badfree_count ();
+#endif
+	s = open_ses (p->codec, p->m, k, r, p->N1, p->seed, len, OF_ENCODER_AND_DECODER, &rej);
+	if (!s) { viol ("C09", "kind=valid-configuration-rejected|role=both"); goto out; }
+	for (j = k; j < n; j++) if (of_build_repair_symbol (s, tab, (UINT32) j) != OF_STATUS_OK) { snprintf (sig, sizeof sig, "codec=%s|role=both|call=build|kind=failed", cn); viol ("C06", sig); break; }
+	vf_stat_add (st_trans, r);
+	/* now decode on the same session: every symbol but `lost` sources (the first `lost` ones) */
+	for (i = lost; i < n; i++) if (of_decode_with_new_symbol (s, sym[i], (UINT32) i) != OF_STATUS_OK) { snprintf (sig, sizeof sig, "codec=%s|role=both|call=DWS|kind=status-not-ok", cn); viol ("C10", sig); break; }
+	if (!of_is_decoding_complete (s)) of_finish_decoding (s);
+	vf_stat_add (st_trans, n - lost + 1);
+	if (lost <= r) {
+		if (!of_is_decoding_complete (s)) { if (p->codec != 3) { snprintf (sig, sizeof sig, "codec=%s|role=both|kind=not-complete-with-k-symbols", cn); viol ("C02", sig); } }
+		else if (of_get_source_symbols_tab (s, src) != OF_STATUS_OK) { snprintf (sig, sizeof sig, "codec=%s|role=both|kind=source-table-unavailable", cn); viol ("C10", sig); }
+		else for (i = 0; i < k; i++) if (!src[i] || memcmp (src[i], sym[i], (size_t) len)) { snprintf (sig, sizeof sig, "codec=%s|role=both|kind=wrong-source-symbol", cn); viol ("C01", sig); break; }
+	}
+	of_release_codec_instance (s);
+	for (i = 0; i < k; i++) { int own = 0; for (j = 0; j < n; j++) if (src[i] == sym[j]) own = 1; if (src[i] && !own) free (src[i]); }
+#ifdef VF_TRK
+	if (vf_trk_live_since (mark, NULL)) { snprintf (sig, sizeof sig, "codec=%s|kind=leak|lifecycle=encoder-then-decoder-on-one-session|lost=%d", cn, lost > 0); viol ("C08", sig); }
+	if (vf_trk_badfree_count () != bad0) { snprintf (sig, sizeof sig, "codec=%s|kind=free-of-non-live-block|lifecycle=encoder-then-decoder-on-one-session", cn); viol ("C08", sig); }
+#endif
+out:
+	for (i = 0; i < n; i++) free (sym[i]);
+	free (sym); free (tab); free (src);
+	vf_stat_add (st_points, 1);
+}
+
 static void item (long it, void *arg)
 {
 	(void) arg;
 	vf_slot_set_prop (PROP);
 	if (vf_deadline_hit ()) { static int said; if (!said) { said = 1; vf_incomplete ("deadline reached at point %ld of %ld", it, NPT); } return; }
-	if (PT[it].codec == 5) p2d_point (&PT[it]); else if (PT[it].codec == 3) ldpc_point (&PT[it]); else rs_point (&PT[it]);
+	if (PT[it].slotmode == 9) both_point (&PT[it]); else if (PT[it].codec == 5) p2d_point (&PT[it]); else if (PT[it].codec == 3) ldpc_point (&PT[it]); else rs_point (&PT[it]);
 	vf_stat_add (st_states, 1);
 }
 
@@ -455,6 +501,7 @@ static void item_replay (long it, void *arg)
 	memset (&p, 0, sizeof p);
 	if (sscanf (cs, "rs codec=%d m=%d k=%d n=%d len=%d align=%d", &p.codec, &p.m, &p.k, &p.n, &p.len, &p.prefix) >= 5) { p.r = p.n - p.k; rs_point (&p); }
 	else if (sscanf (cs, "ldpc k=%d r=%d N1=%d seed=%d len=%d prefix=%d", &p.k, &p.r, &p.N1, &p.seed, &p.len, &p.prefix) == 6) { p.codec = 3; p.n = p.k + p.r; ldpc_point (&p); }
+	else if (sscanf (cs, "both codec=%d m=%d k=%d r=%d N1=%d seed=%d len=%d lost=%d", &p.codec, &p.m, &p.k, &p.r, &p.N1, &p.seed, &p.len, &p.prefix) == 8) { p.n = p.k + p.r; p.slotmode = 9; both_point (&p); }
 	else if (sscanf (cs, "2d k=%d r=%d", &p.k, &p.r) == 2) { p.codec = 5; p.n = p.k + p.r; p2d_point (&p); }
 	else vf_viol ("MACHINERY", "kind=bad-replay-case", "%s", cs);
 }
@@ -485,6 +532,10 @@ int main (int argc, char **argv)
 			for (L = 1; L <= 24; L++) for (al = 1; al < 8; al++) { add_pt (1, 8, 3, 2, 0, 0, L, al); add_pt (2, 8, 3, 2, 0, 0, L, al); add_pt (2, 4, 3, 2, 0, 0, L, al); add_pt (2, 4, 7, 8, 0, 0, L, al); }
 		}
 		for (i = 0; i < (int) (sizeof lens / sizeof lens[0]); i++) { add_pt (1, 8, 5, 4, 0, 0, lens[i], 0); add_pt (2, 8, 5, 4, 0, 0, lens[i], 0); add_pt (2, 4, 5, 4, 0, 0, lens[i], 0); add_pt (2, 4, 14, 1, 0, 0, lens[i], 0); add_pt (1, 8, 17, 3, 0, 0, lens[i], 0); }
+	} else if (!strcmp (mode, "both")) {
+		int lost, codec;
+		for (codec = 1; codec <= 2; codec++) for (k = 1; k <= 6; k++) for (r = 1; r <= 4; r++) for (lost = 0; lost <= r && lost <= k; lost++) { add_pt (codec, 8, k, r, 0, 0, k + 3, lost); PT[NPT - 1].slotmode = 9; if (codec == 2) { add_pt (2, 4, k, r, 0, 0, k + 3, lost); PT[NPT - 1].slotmode = 9; } }
+		for (k = 2; k <= 8; k++) for (r = 3; r <= 6; r++) for (N1 = 3; N1 <= r && N1 <= 5; N1++) for (lost = 0; lost <= 2; lost++) { add_pt (3, 0, k, r, N1, 1 + (k + r) % 3, k + 3, lost); PT[NPT - 1].slotmode = 9; }
 	} else if (!strcmp (mode, "2d")) {
 		for (k = 0; k <= 17; k++) for (r = 0; r <= 26; r++) add_pt (5, 0, k, r, 0, 0, k + 2, 0);
 	} else {
